@@ -45,6 +45,7 @@ theorem init_rel (wid n : Nat) : Rel (CW.init wid n) (specInit n) :=
       · rintro ⟨hm, _⟩; simp [specInit] at hm
       · rintro ⟨h, hm, _⟩; simp [CW.init] at hm
     markedLt := fun o hm => by simp [specInit] at hm
+    markedOld := fun o hm => by simp [specInit] at hm
     markedNodup := List.nodup_nil }
 
 theorem init_bounds (wid n : Nat) : Bounds (CW.init wid n) :=
